@@ -748,3 +748,53 @@ def single_notification(ctx, res):
 def callee_name(x):
     from ..cexpr import callee
     return callee(x)
+
+
+
+# ---------------------------------------------------------------------------
+# shared summary: does a call text denote a newly created object?
+
+def fresh_oracle(ctx, facts):
+    """is_fresh(text): the text starts with a call of an API that returns a
+    new reference, or of an in-file function all of whose successful paths
+    return such a value (so a block extracted into a helper stays visible)"""
+    def compute():
+        import re as _re
+        from ..capi import API
+        memo = {}
+
+        def head(t):
+            m = _re.match(r"([A-Za-z_]\w*)\(", t)
+            return m.group(1) if m else None
+
+        def returns_fresh(f, depth=0):
+            if f in memo:
+                return memo[f]
+            memo[f] = False
+            if depth > 3 or not facts.has_func(f):
+                return False
+            try:
+                ps_f, _, _ = paths_of(ctx, f)
+            except AnalysisError:
+                return False
+            ok_all, some = True, False
+            for p_ in ps_f:
+                if p_.outcome[0] != "RETURN" or p_.outcome[1] in ("0", ""):
+                    continue
+                some = True
+                if not is_fresh(p_.outcome[1], depth + 1):
+                    ok_all = False
+            memo[f] = ok_all and some
+            return memo[f]
+
+        def is_fresh(rv, depth=0):
+            if _re.match(r"\w+->validate\(", rv):
+                return True
+            h = head(rv)
+            if h is None:
+                return False
+            if h in API:
+                return API[h]["ret"] == "new"
+            return returns_fresh(h, depth)
+        return is_fresh
+    return ctx.memo("fresh-oracle", compute)
